@@ -710,9 +710,8 @@ int parse_instruction_thumb(AsmContext *asm_context, char *instr)
               operands[0].value == 5 &&
               operands[1].type == OPERAND_NUMBER)
           {
-            // FIXME - According to the docs, what I did here is wrong.
-            // it says that the offset is +-508 and i have +-1020.
-            if (check_range(asm_context, "Offset", operands[1].value, -1020, 1020) == -1) { return -1; }
+            // The offset field has 7 bits (in words): +-508.
+            if (check_range(asm_context, "Offset", operands[1].value, -508, 508) == -1) { return -1; }
             int s = 0;
             if (operands[1].value<0)
             {
